@@ -1142,46 +1142,16 @@ Definition is_end_true (h : N) (a : action) : bool :=
 Definition is_lin_add (h : N) (a : action) : bool :=
   match a with ALin _ (RAdd h') => h' =? h | _ => false end.
 
-Section GhostC.
-  Variable sc : scenario.
-  Notation decl := (sc_decl sc).
-
-  (* the Remove of a wrapper / deadline goroutine of h that found h registered *)
-  Definition rm_hit (h : N) (reg : list N) (a : action) : bool :=
-    match a with
-    | ATmpRemove h' => (h' =? h) && mem_id h reg && sp_ext decl h
-    | _ => false
-    end.
-
-  Definition rm_acc (h : N) (tr : list action) : list N * nat :=
-    fold_left (fun acc a => (reg_step sc (fst acc) a, (snd acc + if rm_hit h (fst acc) a then 1 else 0)%nat))
-              tr (reg0 sc, 0%nat).
-  Definition rm_ok (tr : list action) (h : N) : nat := snd (rm_acc h tr).
-
-  Lemma rm_acc_fst h tr : fst (rm_acc h tr) = reg_of sc tr.
-  Proof.
-    unfold rm_acc, reg_of. induction tr as [|a tr IH] using rev_ind; [reflexivity|].
-    rewrite !fold_left_app. simpl. rewrite IH. reflexivity.
-  Qed.
-
-  Lemma rm_ok_snoc tr a h :
-    rm_ok (tr ++ [a]) h = (rm_ok tr h + if rm_hit h (reg_of sc tr) a then 1 else 0)%nat.
-  Proof.
-    unfold rm_ok, rm_acc. rewrite fold_left_app. simpl. fold (rm_acc h tr).
-    rewrite rm_acc_fst. reflexivity.
-  Qed.
-
-  (* deadline goroutines of h started so far *)
-  Definition deadlines (tr : list action) (h : N) : nat :=
-    if hd_deadline (decl h)
-    then ((if mem_N h (sc_init sc) then 1 else 0) + cnt (is_lin_add h) tr)%nat else 0%nat.
-End GhostC.
+(* deadline goroutines of h started so far *)
+Definition deadlines (sc : scenario) (tr : list action) (h : N) : nat :=
+  if hd_deadline (sc_decl sc h)
+  then ((if mem_N h (sc_init sc) then 1 else 0) + cnt (is_lin_add h) tr)%nat else 0%nat.
 
 Record InvC (sc : scenario) (tr : list action) (s : state) : Prop := mkInvC {
   c_closed : forall h, cnt (is_close h) tr = s_closed s h;
-  c_rm : forall h, rm_ok sc tr h = (s_toclose s h + s_closed s h)%nat;
-  c_once : forall h, (rm_ok sc tr h <= 1)%nat /\
-             ((0 < rm_ok sc tr h)%nat -> In h (added sc tr) /\ ~ In h (reg_of sc tr));
+  c_le : forall h, (s_closed s h <= 1)%nat;
+  c_fin : forall h, cnt (is_tmprm h) tr = (s_toclose s h + s_closed s h)%nat;
+  c_gone : forall h, (0 < cnt (is_tmprm h) tr)%nat -> In h (added sc tr) /\ ~ In h (reg_of sc tr);
   c_lin : forall i h rest, s_thr s i = (RRemove h :: rest, RLinned true) ->
              In h (added sc tr) /\ ~ In h (reg_of sc tr);
   c_pa : forall h, (0 < s_pend s h)%nat -> In h (added sc tr);
@@ -1196,7 +1166,7 @@ Section InvC.
   Lemma invC_init : InvC sc [] (init sc).
   Proof.
     constructor; unfold init; simpl; intros; auto.
-    - split; [unfold rm_ok; simpl; lia|]. unfold rm_ok. simpl. lia.
+    - unfold cnt in H. simpl in H. lia.
     - discriminate.
     - destruct (mem_N h (sc_init sc) && hd_deadline (decl h)) eqn:E; [|lia].
       apply Bool.andb_true_iff in E as [E _]. apply mem_N_in in E. exact E.
@@ -1213,7 +1183,7 @@ Section InvC.
     apply exec_snoc. eauto.
   Qed.
 
-  (* steps that do not touch threads, pending Remove calls or done channels *)
+  (* steps that do not touch pending finish calls or done channels *)
   Lemma invC_frame tr s a s' :
     exec sc (init sc) tr = Some s -> step sc s a = Some s' ->
     InvC sc tr s ->
@@ -1221,15 +1191,15 @@ Section InvC.
                       exists rest0, s_thr s i = (RRemove h :: rest0, RLinned true)) ->
     s_pend s' = s_pend s -> s_toclose s' = s_toclose s -> s_closed s' = s_closed s ->
     (forall h, is_close h a = false /\ is_end_true h a = false /\ is_lin_add h a = false /\ is_tmprm h a = false) ->
-    (forall h reg, rm_hit sc h reg a = false) ->
     InvC sc (tr ++ [a]) s'.
   Proof.
-    intros Hrun Hst [Hcl Hrm Honce Hlin Hpa Hpend] Et Ep Etc Ec Hno Hhit.
+    intros Hrun Hst [Hcl Hle Hfin Hgone Hlin Hpa Hpend] Et Ep Etc Ec Hno.
     constructor; rewrite ?Ep, ?Etc, ?Ec; intros.
     - rewrite cnt_snoc. destruct (Hno h) as [-> _]. rewrite <- Hcl. lia.
-    - rewrite rm_ok_snoc, Hhit, <- Hrm. lia.
-    - rewrite rm_ok_snoc, Hhit, Nat.add_0_r. destruct (Honce h) as [H1 H2].
-      split; [exact H1|]. intros Hp. apply (gone_step tr s a s' h Hrun Hst). auto.
+    - apply Hle.
+    - rewrite cnt_snoc. destruct (Hno h) as [_ [_ [_ ->]]]. rewrite <- Hfin. lia.
+    - rewrite cnt_snoc in H. destruct (Hno h) as [_ [_ [_ E]]]. rewrite E in H.
+      apply (gone_step tr s a s' h Hrun Hst). apply Hgone. lia.
     - apply (gone_step tr s a s' h Hrun Hst). destruct (Et i h rest H) as [rest0 H0]. eapply Hlin; eauto.
     - apply added_mono. auto.
     - unfold deadlines. rewrite !cnt_snoc. destruct (Hno h) as [_ [-> [-> ->]]].
@@ -1245,7 +1215,7 @@ Section InvC.
     destruct a.
     1-5,7: (apply (invC_frame tr s _ s' Hrun Hst' HC);
             [step_inv Hst; eauto|step_inv Hst; reflexivity|step_inv Hst; reflexivity
-            |step_inv Hst; reflexivity|intros; simpl; auto|intros; reflexivity]).
+            |step_inv Hst; reflexivity|intros; simpl; auto]).
     - (* AEnd *)
       assert (s_thr s' = s_thr s /\ s_toclose s' = s_toclose s /\ s_closed s' = s_closed s /\
               s_pend s' = (if outcome_eqb o (ORet true) && hd_tmp (decl h)
@@ -1259,12 +1229,12 @@ Section InvC.
         - destruct (s_disp s); try discriminate. destruct (Nat.eqb n n0 && mem_N h out); [|discriminate].
           inversion Hst; subst; simpl. repeat split; auto.
           destruct o as [[|]|]; simpl; auto. }
-      destruct HC as [Hcl Hrm Honce Hlin Hpa Hpend].
+      destruct HC as [Hcl Hle Hfin Hgone Hlin Hpa Hpend].
       constructor; rewrite ?Et, ?Etc, ?Ec, ?Ep; intros.
       + rewrite cnt_snoc. simpl. rewrite <- Hcl. lia.
-      + rewrite rm_ok_snoc. simpl. rewrite <- Hrm. lia.
-      + rewrite rm_ok_snoc. simpl. rewrite Nat.add_0_r. destruct (Honce h0) as [H1 H2].
-        split; [exact H1|]. intros Hp. apply (gone_step tr s _ s' h0 Hrun Hst'). auto.
+      + apply Hle.
+      + rewrite cnt_snoc. simpl. rewrite <- Hfin. lia.
+      + rewrite cnt_snoc in H. simpl in H. apply (gone_step tr s _ s' h0 Hrun Hst'). apply Hgone. lia.
       + apply (gone_step tr s _ s' h0 Hrun Hst'). eapply Hlin; eauto.
       + apply added_mono. revert H.
         destruct (outcome_eqb o (ORet true) && hd_tmp (decl h)); [|apply Hpa].
@@ -1292,7 +1262,6 @@ Section InvC.
       + step_inv Hst; reflexivity.
       + step_inv Hst; reflexivity.
       + intros; simpl; auto.
-      + intros; reflexivity.
     - (* ALin *)
       unfold step in Hst. destruct (s_crashed s); [discriminate|].
       destruct (s_thr s i) as [[|r l0] [| |res']] eqn:E0; try discriminate.
@@ -1302,12 +1271,12 @@ Section InvC.
       pose proof (thread_top_ok sc Hwf tr s i r l0 HA E0) as Hok.
       destruct (table_step _ decl (wf_uid sc Hwf) _ _ _ (a_rel _ _ _ HA) Hok) as [_ Hres].
       rewrite E4 in Hres. simpl in Hres.
-      destruct HC as [Hcl Hrm Honce Hlin Hpa Hpend].
+      destruct HC as [Hcl Hle Hfin Hgone Hlin Hpa Hpend].
       constructor; simpl; intros.
       + rewrite cnt_snoc. simpl. rewrite <- Hcl. lia.
-      + rewrite rm_ok_snoc. simpl. rewrite <- Hrm. lia.
-      + rewrite rm_ok_snoc. simpl. rewrite Nat.add_0_r. destruct (Honce h) as [H1 H2].
-        split; [exact H1|]. intros Hp. apply (gone_step tr s _ _ h Hrun Hst'). auto.
+      + apply Hle.
+      + rewrite cnt_snoc. simpl. rewrite <- Hfin. lia.
+      + rewrite cnt_snoc in H. simpl in H. apply (gone_step tr s _ _ h Hrun Hst'). apply Hgone. lia.
       + unfold updt in H. destruct (Nat.eqb i0 i) eqn:Ei.
         * injection H as Hr _ Hrt. rewrite Hr in *. rewrite Hrt in Hres.
           simpl in Hres. unfold sp_remove in Hres.
@@ -1339,36 +1308,24 @@ Section InvC.
       + step_inv Hst; reflexivity.
       + step_inv Hst; reflexivity.
       + intros; simpl; auto.
-      + intros; reflexivity.
-    - (* ATmpRemove *)
+    - (* ATmpRemove: finish calls Remove *)
       unfold step in Hst. destruct (s_crashed s); [discriminate|].
       destruct (Nat.ltb 0 (s_pend s h)) eqn:Ep; [|discriminate]. apply Nat.ltb_lt in Ep.
       destruct (remove (s_tbl s) (reg_cuid (sc_uid sc) decl h)) as [t' ok] eqn:E1.
       inversion Hst; subst; clear Hst.
-      assert (cmd_ok decl h) as Hc by (apply (wf_tmp_ok sc Hwf); apply (a_pend _ _ _ HA); auto).
-      destruct (wf_uid sc Hwf) as [U1 [U2 U3]].
-      destruct (rel_remove _ decl U1 U2 U3 _ _ h (a_rel _ _ _ HA) Hc) as [_ Hres].
-      rewrite E1 in Hres. simpl in Hres. unfold sp_remove in Hres.
-      destruct HC as [Hcl Hrm Honce Hlin Hpa Hpend].
+      pose proof (a_pend _ _ _ HA h Ep) as Htmp.
+      destruct HC as [Hcl Hle Hfin Hgone Hlin Hpa Hpend].
       constructor; simpl; intros.
       + rewrite cnt_snoc. simpl. rewrite <- Hcl. lia.
-      + rewrite rm_ok_snoc. simpl. specialize (Hrm h0). destruct (h =? h0) eqn:Eh.
-        * apply N.eqb_eq in Eh. subst h0. simpl.
-          destruct (mem_id h (reg_of sc tr) && sp_ext decl h); simpl in Hres; subst ok.
-          -- rewrite upd1_get, N.eqb_refl. lia.
-          -- lia.
-        * simpl. destruct ok; [rewrite upd1_get, (N.eqb_sym h0 h), Eh|]; lia.
-      + rewrite rm_ok_snoc. simpl. destruct (Honce h0) as [H1 H2].
-        destruct ((h =? h0) && mem_id h0 (reg_of sc tr) && sp_ext decl h0) eqn:Ehit.
-        * apply Bool.andb_true_iff in Ehit as [Ehit Ex]. apply Bool.andb_true_iff in Ehit as [Eh Em].
-          apply N.eqb_eq in Eh. subst h0. apply mem_id_in in Em.
-          assert (rm_ok sc tr h = 0)%nat as Hz.
-          { destruct (rm_ok sc tr h); [reflexivity|]. destruct H2 as [_ H2]; [lia|]. contradiction. }
-          rewrite Hz. split; [lia|]. intros _. split.
-          -- apply added_mono. apply (a_sub _ _ _ HA). exact Em.
-          -- rewrite reg_of_snoc. simpl. apply sp_remove_gone. exact Ex.
-        * rewrite Nat.add_0_r. split; [exact H1|]. intros Hp.
-          apply (gone_step tr s _ _ h0 Hrun Hst'). auto.
+      + apply Hle.
+      + rewrite cnt_snoc. simpl. specialize (Hfin h0). rewrite upd1_get, (N.eqb_sym h h0).
+        destruct (h0 =? h) eqn:Eh; [apply N.eqb_eq in Eh; subst h0|]; lia.
+      + rewrite cnt_snoc in H. simpl in H. destruct (h =? h0) eqn:Eh.
+        * apply N.eqb_eq in Eh. subst h0. split.
+          -- apply added_mono. apply Hpa. exact Ep.
+          -- rewrite reg_of_snoc. simpl. apply sp_remove_gone. unfold sp_ext.
+             destruct (wf_tmp_ok sc Hwf h Htmp) as [_ [Hx _]]. destruct (Hx Htmp) as [_ ->]. reflexivity.
+        * apply (gone_step tr s _ _ h0 Hrun Hst'). apply Hgone. lia.
       + apply (gone_step tr s _ _ h0 Hrun Hst'). eapply Hlin; eauto.
       + apply added_mono. apply Hpa. revert H. rewrite upd1_get.
         destruct (h0 =? h) eqn:Eh; [apply N.eqb_eq in Eh; subst h0|]; lia.
@@ -1377,19 +1334,20 @@ Section InvC.
         rewrite upd1_get. rewrite (N.eqb_sym h h0). destruct (h0 =? h) eqn:Eh.
         * apply N.eqb_eq in Eh. subst h0. destruct (hd_deadline (decl h)); lia.
         * destruct (hd_deadline (decl h0)); lia.
-    - (* AClose *)
+    - (* AClose: the first finish closes done *)
       unfold step in Hst. destruct (s_crashed s); [discriminate|].
-      destruct (Nat.ltb 0 (s_toclose s h)) eqn:Ep; [|discriminate]. apply Nat.ltb_lt in Ep.
+      destruct (Nat.ltb 0 (s_toclose s h) && Nat.eqb (s_closed s h) 0) eqn:Ep; [|discriminate].
+      apply Bool.andb_true_iff in Ep as [Ep Ez]. apply Nat.ltb_lt in Ep. apply Nat.eqb_eq in Ez.
       inversion Hst; subst; clear Hst.
-      destruct HC as [Hcl Hrm Honce Hlin Hpa Hpend].
+      destruct HC as [Hcl Hle Hfin Hgone Hlin Hpa Hpend].
       constructor; simpl; intros.
       + rewrite cnt_snoc. simpl. rewrite upd1_get, (N.eqb_sym h h0).
         pose proof (Hcl h0). pose proof (Hcl h).
         destruct (h0 =? h) eqn:Eh; [apply N.eqb_eq in Eh; subst h0|]; lia.
-      + rewrite rm_ok_snoc. simpl. specialize (Hrm h0). rewrite !upd1_get.
+      + rewrite upd1_get. destruct (h0 =? h); [lia|apply Hle].
+      + rewrite cnt_snoc. simpl. specialize (Hfin h0). rewrite !upd1_get.
         destruct (h0 =? h) eqn:Eh; [apply N.eqb_eq in Eh; subst h0|]; lia.
-      + rewrite rm_ok_snoc. simpl. rewrite Nat.add_0_r. destruct (Honce h0) as [H1 H2].
-        split; [exact H1|]. intros Hp. apply (gone_step tr s _ _ h0 Hrun Hst'). auto.
+      + rewrite cnt_snoc in H. simpl in H. apply (gone_step tr s _ _ h0 Hrun Hst'). apply Hgone. lia.
       + apply (gone_step tr s _ _ h0 Hrun Hst'). eapply Hlin; eauto.
       + apply added_mono. auto.
       + unfold deadlines. rewrite !cnt_snoc. simpl. specialize (Hpend h0 H).
@@ -1423,17 +1381,17 @@ Section Tmp.
     exec sc (init sc) tr = Some s -> (cnt (is_close h) tr <= 1)%nat.
   Proof.
     intros Hrun. pose proof (invC_run sc Hwf tr s Hrun) as HC.
-    rewrite (c_closed _ _ _ HC h). pose proof (c_rm _ _ _ HC h). destruct (c_once _ _ _ HC h). lia.
+    rewrite (c_closed _ _ _ HC h). apply (c_le _ _ _ HC).
   Qed.
 
-  (* ... and only after the handler has been removed for good *)
+  (* ... and only after a finish has removed the handler for good *)
   Theorem close_implies_removed tr s h :
     exec sc (init sc) tr = Some s -> In (AClose h) tr ->
     In h (added sc tr) /\ ~ In h (reg_of sc tr).
   Proof.
     intros Hrun Hin. pose proof (invC_run sc Hwf tr s Hrun) as HC.
     apply is_close_in in Hin. rewrite (c_closed _ _ _ HC h) in Hin.
-    pose proof (c_rm _ _ _ HC h). destruct (c_once _ _ _ HC h) as [_ H2]. apply H2. lia.
+    apply (c_gone _ _ _ HC). rewrite (c_fin _ _ _ HC h). lia.
   Qed.
 
   (* a Remove that returned true removed the handler for good *)
@@ -1456,44 +1414,20 @@ Section Tmp.
   Qed.
 
   (* C06_removed_silent for AddTmp: once the function has returned true or the deadline
-     goroutine exists, and every Remove call these have queued has run, the handler is gone
-     for good; done is closed exactly when one of those Remove calls was the one that
-     removed it (when a registrar's Remove / Clear / ClearAll got there first, nobody
-     closes done) *)
+     goroutine exists, and every finish call these have queued has done its Remove
+     (s_pend = 0), the handler is gone for good — whoever removed it — and done has been
+     closed exactly once, or a finish is between its Remove and its once.Do(close(done)) *)
   Theorem tmp_removed tr s h :
     exec sc (init sc) tr = Some s -> hd_tmp (decl h) = true ->
     (0 < cnt (is_end_true h) tr + deadlines sc tr h)%nat -> s_pend s h = 0%nat ->
     In h (added sc tr) /\ ~ In h (reg_of sc tr) /\
-    (rm_ok sc tr h <= 1)%nat /\
-    (s_toclose s h = 0%nat -> cnt (is_close h) tr = rm_ok sc tr h).
+    (cnt (is_close h) tr = 1%nat \/ (cnt (is_close h) tr = 0%nat /\ (0 < s_toclose s h)%nat)).
   Proof.
     intros Hrun Htmp Hpos Hp0. pose proof (invC_run sc Hwf tr s Hrun) as HC.
     pose proof (c_pend _ _ _ HC h Htmp) as Hacc. rewrite Hp0 in Hacc.
     assert (0 < cnt (is_tmprm h) tr)%nat as Hrm by lia.
-    apply cnt_pos_in in Hrm as [a [Hin Hp]]. destruct a; simpl in Hp; try discriminate.
-    apply N.eqb_eq in Hp. subst h0. apply in_split in Hin as [u [v ->]].
-    pose proof Hrun as Hrun'.
-    replace (u ++ ATmpRemove h :: v) with ((u ++ [ATmpRemove h]) ++ v) in Hrun' |- *
-      by (rewrite <- app_assoc; reflexivity).
-    apply exec_prefix in Hrun' as [s1 [H1 _]]. pose proof H1 as H1'.
-    apply exec_snoc in H1 as [su [Hu Hst]].
-    pose proof (invC_run sc Hwf u su Hu) as HCu.
-    assert (In h (added sc (u ++ [ATmpRemove h])) /\ ~ In h (reg_of sc (u ++ [ATmpRemove h]))) as [Ha Hr].
-    { split.
-      - apply added_mono. apply (c_pa _ _ _ HCu). unfold step in Hst.
-        destruct (s_crashed su); [discriminate|].
-        destruct (Nat.ltb 0 (s_pend su h)) eqn:Ep; [|discriminate]. apply Nat.ltb_lt in Ep. exact Ep.
-      - rewrite reg_of_snoc. simpl. apply sp_remove_gone. unfold sp_ext.
-        destruct (wf_tmp_ok sc Hwf h Htmp) as [_ [Hx _]]. destruct (Hx Htmp) as [_ ->]. reflexivity. }
-    replace ((u ++ [ATmpRemove h]) ++ v) with (u ++ ATmpRemove h :: v) in *
-      by (rewrite <- app_assoc; reflexivity).
-    assert (exec sc (init sc) ((u ++ [ATmpRemove h]) ++ v) = Some s) as Hrun2
-      by (rewrite <- app_assoc; exact Hrun).
-    destruct (removed_stays sc Hwf v (u ++ [ATmpRemove h]) s h Hrun2 Ha Hr) as [Ha' Hr'].
-    rewrite <- app_assoc in Ha', Hr'. simpl in Ha', Hr'.
-    split; [exact Ha'|split; [exact Hr'|]].
-    destruct (c_once _ _ _ HC h) as [H1x _]. split; [exact H1x|].
-    intros Htc. rewrite (c_closed _ _ _ HC h). pose proof (c_rm _ _ _ HC h). lia.
+    destruct (c_gone _ _ _ HC h Hrm) as [Ha Hr]. split; [exact Ha|split; [exact Hr|]].
+    rewrite (c_closed _ _ _ HC h). pose proof (c_fin _ _ _ HC h). pose proof (c_le _ _ _ HC h). lia.
   Qed.
 
   (* C06_panic_isolated: with a recover function a panic has the effect of a return, on
